@@ -251,6 +251,28 @@ def digest(lines, case):
             nonsingle.add(cid)
     if need_mesh_check:
         reads += 1
+    def hoist_root_exit(ts):
+        """The worker that collects the root leaves its loop and stores `done = true` BEFORE it reaches its exit hook
+        (the hook sits after the store), and under the cooperative scheduler its exit event is only logged when that
+        worker is picked again; a worker that runs in between already sees `done` and logs its own exit first.  The
+        model's exitRoot step sets `done` when the root collector's exit token is replayed, so exit tokens of OTHER
+        workers that were logged between the root-collect token and the root collector's exit token are moved to
+        directly after it (loop-head tokens stay where they are; no pool state changes in between)."""
+        last = max((i for i, t in enumerate(ts) if t[0] == "c" and t.endswith(":1")), default=None)
+        if last is None:
+            return ts
+        w = ts[last][1:].split(":")[0]
+        for j in range(last + 1, len(ts)):
+            if ts[j] == "x" + w:
+                between = ts[last + 1:j]
+                if all(t[0] in "lx" for t in between) and any(t[0] == "x" for t in between):
+                    early = [t for t in between if t[0] == "x"]
+                    rest = [t for t in between if t[0] != "x"]
+                    ts = ts[:last + 1] + rest + [ts[j]] + early + ts[j + 1:]
+                break
+        return ts
+
+    toks, wtoks = hoist_root_exit(toks), hoist_root_exit(wtoks)
     out = ["case %s alg %s n 8 workers %d L %d mode %s" % (case["id"], alg, workers, L or 0, case["mode"])]
     if ctl and toks and len(toks) <= 60000:
         out.append("pool " + " ".join(toks))
